@@ -76,6 +76,8 @@ def canon_bytime(log, eqs, tok):
 
 
 def canon_byeq(res, eqs, tok):
+    if res == {}:            # no step has run yet: an empty result, whatever its nesting
+        return ";".join("%d=" % e for e in eqs)
     try:
         d = res[SM][SC]["equations"]
         return ";".join("%d=" % e + ",".join("%s:%s" % (tok(t), fbits(v)) for t, v in d[EQN[e]].items()) for e in eqs)
@@ -84,6 +86,8 @@ def canon_byeq(res, eqs, tok):
 
 
 def canon_flat(res, eqs):
+    if res == {}:
+        return ";".join("%d=" % e for e in eqs)
     try:
         d = res[SM][SC]["equations"]
         return ";".join("%d=" % e + ",".join(fbits(v) for v in d[EQN[e]]) for e in eqs)
